@@ -24,7 +24,7 @@ type Opts struct {
 var AllFeatures = []string{
 	"async", "err", "multi", "bind", "struct", "value", "sets", "lit", "ext", "ctxparam",
 	"composite", "basic", "args", "unneeded", "multi-inj", "multi-file", "dupparam",
-	"generic", "variadic", "variadic-functype", "want-unsupplied", "kalias", "extalias", "value-and-pointer", "rewrap", "struct-both-forms", "alias-basic", "ctx-provider", "implements-error", "adv-pkg-shadowed-by-later-decl", "value-literal", "multi-var-sets", "ext-method-value", "err-alias", "set-ref-paren",
+	"generic", "variadic", "variadic-functype", "want-unsupplied", "kalias", "extalias", "value-and-pointer", "rewrap", "struct-both-forms", "alias-basic", "ctx-provider", "implements-error", "adv-pkg-shadowed-by-later-decl", "value-literal", "multi-var-sets", "ext-method-value", "err-alias", "set-ref-paren", "set-decl-paren", "set-alias-var", "elem-paren", "elem-hoisted-var", "inject-spelling", "prov-func-var",
 	"async-struct", "ptrrecv", "aiface", "embedded",
 }
 
@@ -633,6 +633,8 @@ func (g *gen) genUnit(i int) {
 		}
 	} else if g.want("lit", "litform", 12) {
 		p.Form = "lit"
+	} else if g.want("prov-func-var", "funcvar", 10) {
+		p.FuncVar = true // var NewX = func(...) ...: a function variable instead of a function
 	}
 	// parameters
 	maxP := 4
@@ -966,7 +968,18 @@ func (g *gen) genGroupsAndInjectors() {
 			continue
 		}
 		f := rapid.IntRange(0, nFiles-1).Draw(g.rt, "setfile")
-		c.Files[f].Sets = append(c.Files[f].Sets, SetDecl{Name: setName[k], Elems: setElems(k)})
+		sd := SetDecl{Name: setName[k], Elems: setElems(k)}
+		sd.Paren = g.want("set-decl-paren", "setdeclparen", 10)
+		if g.want("set-alias-var", "setalias", 12) {
+			// var setab = setaa: every reference goes through the second variable
+			orig := g.name("set")
+			sd.Name = orig
+			c.Files[f].Sets = append(c.Files[f].Sets, sd)
+			af := rapid.IntRange(0, nFiles-1).Draw(g.rt, "aliasfile")
+			c.Files[af].Sets = append(c.Files[af].Sets, SetDecl{Name: setName[k], AliasOf: orig})
+			continue
+		}
+		c.Files[f].Sets = append(c.Files[f].Sets, sd)
 	}
 	// units reachable through top-level group k (including nested sets)
 	var groupUnits func(k int) []int
@@ -1028,6 +1041,13 @@ func (g *gen) genGroupsAndInjectors() {
 					el.AsyncInner = rapid.Bool().Draw(g.rt, "rewrap-inner")
 				}
 			}
+			if ii == 0 && el.Kind != "set" && el.Kind != "inline" {
+				if g.want("elem-paren", "elemparen", 8) {
+					el.Paren = true
+				} else if el.Kind != "value" && !(el.Kind == "prov" && c.ProvByID(el.Prov).Form == "lit") && g.want("elem-hoisted-var", "elemhoist", 8) {
+					el.Hoist = g.name("decl")
+				}
+			}
 			elems = append(elems, el)
 		}
 		for k := 1; k <= nSets; k++ {
@@ -1057,6 +1077,24 @@ func (g *gen) genGroupsAndInjectors() {
 			shuffled[i] = elems[j]
 		}
 		inj.Elems = shuffled
+		switch rapid.IntRange(0, 11).Draw(g.rt, "injform") {
+		case 8:
+			inj.Form = "typed"
+		case 9:
+			inj.Form = "named"
+		case 10:
+			inj.Form = "block"
+		case 11:
+			inj.Form = "multi"
+		}
+		if inj.Form != "" {
+			if g.allow("inject-spelling") {
+				c.AddFeature("inject-spelling")
+				c.AddFeature("inject-spelling:" + inj.Form)
+			} else {
+				inj.Form = ""
+			}
+		}
 		// requested type: among types supplied by included units, biased to the latest
 		var cands []TypeID
 		for _, t := range g.supplied {
